@@ -38,8 +38,14 @@ class World:
             d = {"k": "t", "cols": [self.obs_vec(c) for c in cols], "len": len(o), "shape": list(o.shape)}
             if deep:
                 n = len(o)
-                d["rows_idx"] = [[self.intern.uid(x) for x in tuple(o[r])] for r in range(n)] if cols else []
-                d["rows_iter"] = [[self.intern.uid(x) for x in tuple(r)] for r in o]
+                try:
+                    d["rows_idx"] = [[self.intern.uid(x) for x in tuple(o[r])] for r in range(n)] if cols else []
+                except Exception as e:     # the observation itself failing is reported by the judge, not by the harness
+                    d["rows_idx"] = [["raised " + err_class(e)]]
+                try:
+                    d["rows_iter"] = [[self.intern.uid(x) for x in tuple(r)] for r in o]
+                except Exception as e:
+                    d["rows_iter"] = [["raised " + err_class(e)]]
                 d["names"] = o.column_names()
             return d
         if isinstance(o, s.Vector):
@@ -173,8 +179,12 @@ def choose_step(rng, w, flavor, last=None):
     if op == "newtab":
         nc = rng.randint(1, 3)
         names = [rng.choice(["a", "b", "c", "A b", "a"]) for _ in range(nc)]
-        return {"op": "newtab", "dst": dst, "cols": [[nm, rand_vals(rng, nrows)] for nm in names],
-                "form": rng.choice(["list", "list", "dict"])}
+        nr = rng.choice([nrows, nrows, nrows, nrows, 0, 1])
+        cols = [[nm, rand_vals(rng, nr)] for nm in names]
+        if nc > 1 and rng.random() < 0.15:   # malformed stream: ragged input must be rejected
+            j = rng.randrange(nc)
+            cols[j][1] = rand_vals(rng, rng.choice([nr + 1, max(nr - 1, 0), 0]))
+        return {"op": "newtab", "dst": dst, "cols": cols, "form": rng.choice(["list", "list", "dict"])}
     if op == "tabfrom":
         k = rng.randint(1, min(3, len(vecs)))
         return {"op": "tabfrom", "dst": dst, "srcs": [rng.choice(vecs) for _ in range(k)]}
